@@ -129,3 +129,22 @@ def cum_monotone_stmt(h, cum):
                       patterns=[z3.MultiPattern(cum(a), cum(b))]),
             z3.ForAll([a, b], z3.Implies(z3.And(0 <= a, a < b, b <= h.n), cum(a) < cum(b)),
                       patterns=[z3.MultiPattern(cum(a), cum(b))])]
+
+
+def parser_dests(module, func, prog='cmd'):
+    """the option names (argparse `dest`s) defined by the real add_subparser_* function of a command:
+    executes the repository's own parser definition, nothing else"""
+    import argparse, importlib
+    from pyvc import native
+    native.use_repo()
+    m = importlib.import_module(module)
+    top = argparse.ArgumentParser(prog=prog)
+    sub = top.add_subparsers()
+    sp = getattr(m, func)(sub)
+    return sorted({a.dest for a in sp._actions if a.dest not in ('help',)})
+
+
+def real_namespace(dests, known, strict_reg=None):
+    """argparse.Namespace model with exactly the attributes the real parser defines"""
+    fields = {d: known.get(d, OpaqueStr(['option', d])) for d in dests}
+    return SymObj('Namespace', **fields)
